@@ -305,7 +305,7 @@ func pairs(roots []*html.Node) []string {
 		switch n.Type {
 		case html.ElementNode:
 			out = append(out, nodeName(n)+"@"+parent)
-			if n.Namespace != "" {
+			if n.Namespace != "" || n.Data == "script" || n.Data == "style" {
 				return
 			}
 			for c := n.FirstChild; c != nil; c = c.NextSibling {
